@@ -540,6 +540,9 @@ int main(int argc, char** argv)
                     (unsigned long long)sim::g_heap.n_min_align);
         std::printf(",\"c17_subject_ops_enumerated\":%llu,\"c17_failure_points\":%llu", (unsigned long long)c17_subjects,
                     (unsigned long long)c17_points);
+        std::printf(",\"value_throws\":%llu,\"abandoned_objects\":%llu,\"abandoned_blocks\":%llu",
+                    (unsigned long long)ctr.value_throws, (unsigned long long)ctr.abandoned_objects,
+                    (unsigned long long)ctr.abandoned_blocks);
         std::printf(",\"placements\":{");
         for (int i = 0; i < sim::PL_COUNT; ++i)
             std::printf("%s\"%s\":%llu", i ? "," : "", sim::PLACEMENT_NAMES[i], (unsigned long long)sim::g_heap.n_place[i]);
